@@ -468,7 +468,7 @@ spif_socket_accept(spif_socket_t self)
 spif_bool_t
 spif_socket_send(spif_socket_t self, spif_str_t data)
 {
-    size_t len;
+    size_t len, sent = 0;
     int num_written;
     struct timeval tv = { 0, 0 };
 
@@ -479,14 +479,20 @@ spif_socket_send(spif_socket_t self, spif_str_t data)
     REQUIRE_RVAL(len > 0, FALSE);
 
     num_written = write(self->fd, SPIF_STR_STR(data), len);
-    for (; (num_written < 0) && ((errno == EAGAIN) || (errno == EINTR)); ) {
-        tv.tv_usec += 10000;
-        if (tv.tv_usec == 1000000) {
-            tv.tv_usec = 0;
-            tv.tv_sec++;
+    for (; ((num_written < 0) && ((errno == EAGAIN) || (errno == EINTR)))
+           || ((num_written >= 0) && ((size_t) num_written < len - sent)); ) {
+        if (num_written >= 0) {
+            /* Short write.  Go on with the bytes the kernel has not taken yet. */
+            sent += num_written;
+        } else {
+            tv.tv_usec += 10000;
+            if (tv.tv_usec == 1000000) {
+                tv.tv_usec = 0;
+                tv.tv_sec++;
+            }
+            select(0, NULL, NULL, NULL, &tv);
         }
-        select(0, NULL, NULL, NULL, &tv);
-        num_written = write(self->fd, SPIF_STR_STR(data), len);
+        num_written = write(self->fd, SPIF_STR_STR(data) + sent, len - sent);
     }
     if (num_written < 0) {
         D_OBJ(("Unable to write to socket %d -- %s\n", self->fd, strerror(errno)));
